@@ -10,6 +10,9 @@ CORE = dict(
              overrides_quick={"MaxSeq": "2"}, overrides_thorough={"MaxSeq": "3"}),
         dict(role="as-coded", module="MCCore.tla", cfg="core_ascoded.cfg", extra=["-continue"],
              overrides_quick={"MaxSeq": "1"}, overrides_thorough={"MaxSeq": "1"}, timeout_thorough=900),
+        # FairSpec = Spec + weak fairness of the honest relayer; Live_Settled: every packet sent is eventually settled on its source
+        dict(role="liveness", module="MCCore.tla", cfg="core_live.cfg",
+             overrides_quick={"MaxSeq": "1"}, overrides_thorough={"MaxSeq": "2"}, timeout_thorough=1800),
     ],
     gen=dict(module="MCCore.tla", cfgs=[("gen_core.cfg", 0.6), ("gen_core_replay.cfg", 0.3), ("gen_core_long.cfg", 0.1)],
              quick=(64, 40), thorough=(800, 60), depth_factor={"gen_core_long.cfg": 2.5}),
